@@ -1,0 +1,51 @@
+// Copyright © 2024 Attestant Limited.
+// Licensed under the Apache License, Version 2.0 (the "License");
+// you may not use this file except in compliance with the License.
+// You may obtain a copy of the License at
+//
+//     http://www.apache.org/licenses/LICENSE-2.0
+//
+// Unless required by applicable law or agreed to in writing, software
+// distributed under the License is distributed on an "AS IS" BASIS,
+// WITHOUT WARRANTIES OR CONDITIONS OF ANY KIND, either express or implied.
+// See the License for the specific language governing permissions and
+// limitations under the License.
+
+//go:build verif
+
+package standard
+
+import (
+	"context"
+
+	badger "github.com/dgraph-io/badger/v2"
+)
+
+// VerifRawGet returns the raw record stored under the given key, and whether it exists.
+func (s *Service) VerifRawGet(_ context.Context, key []byte) ([]byte, bool, error) {
+	var value []byte
+	err := s.store.db.View(func(txn *badger.Txn) error {
+		item, err := txn.Get(key)
+		if err != nil {
+			return err
+		}
+		value, err = item.ValueCopy(nil)
+
+		return err
+	})
+	if err == badger.ErrKeyNotFound {
+		return nil, false, nil
+	}
+	if err != nil {
+		return nil, false, err
+	}
+
+	return value, true, nil
+}
+
+// VerifRawPut stores a raw record under the given key.
+func (s *Service) VerifRawPut(_ context.Context, key []byte, value []byte) error {
+	return s.store.db.Update(func(txn *badger.Txn) error {
+		return txn.Set(key, value)
+	})
+}
